@@ -115,6 +115,9 @@ class J1939_21:
             # if the PF is between 240 and 255, the message can only be broadcast
             if dest_address == ParameterGroupNumber.Address.GLOBAL:
                 # send BAM
+                if pgn.is_pdu1_format:
+                    # the PS byte of a PDU1 message is its destination, not part of the PGN
+                    pgn.pdu_specific = 0
                 self.__send_tp_bam(src_address, priority, pgn.value, message_size, num_packets)
 
                 # init new buffer for this connection
